@@ -115,8 +115,21 @@ pub(crate) fn encode_internal<W: Write, S: Borrow<Schema> + Debug>(
                 value_kind: ValueKind::from(value),
                 supported_schema: vec![SchemaKind::Union],
             })?;
+        // The branch was matched by resolving the value against it (a symbol for an enum, a map
+        // for a record, ...), so what has to be written is the value it resolves to
+        let namespace = branch.namespace().or(enclosing_namespace);
+        let resolved = value
+            .clone()
+            .resolve_internal(branch, names, namespace, None)
+            .ok();
         let mut written_bytes = encode_long(index as i64, &mut *writer)?;
-        written_bytes += encode_internal(value, branch, names, enclosing_namespace, writer)?;
+        written_bytes += encode_internal(
+            resolved.as_ref().unwrap_or(value),
+            branch,
+            names,
+            enclosing_namespace,
+            writer,
+        )?;
         return Ok(written_bytes);
     }
 
